@@ -409,7 +409,23 @@ func (c *Ctx) helperValues() {
 		}
 	}
 	run.Floor("helper_values", 27)
+	c.checkStepSpecs([]stepSpec{sinceSpec})
 }
+
+// sinceSpec: helper.Since counts how many elements in a row carried the current value: 0 for the
+// first element and whenever the value changes, one more otherwise.
+var sinceSpec = stepSpec{Site: "helper.Since", Callee: "Map", Rule: "helper-model/value",
+	Params: []string{"x"}, State: []string{"first", "last", "count"},
+	Hint: map[string]string{"first": "first", "last": "last", "count": "count"},
+	Bool: map[string]bool{"first": true},
+	Let:  [][2]string{{"NEW", "(first || last != x)"}},
+	Updates: map[string]string{
+		"first": "false",
+		"last":  "ite(NEW, x, last)",
+		"count": "ite(NEW, 0, count + 1)",
+	},
+	Out: "ite(NEW, 0, count + 1)",
+	Doc: "Since = 0 for the first element and whenever the value differs from the previous one, previous count + 1 otherwise"}
 
 // normaliseParams: scalar parameters of a root appear as cfg:<name> or plain symbols in value
 // terms; the models name them directly.
